@@ -16,7 +16,10 @@ fn main() {
         // child process of the `deep` enumeration: one operation on a document of the given nesting depth, on a 2 MiB stack
         let depth: usize = args[1].parse().unwrap();
         let op = args[2].clone();
-        let ok = enumcheck::deep::child(depth, &op);
+        let ok = match op.strip_prefix("rescycle:") {
+            Some(case) => enumcheck::rescycle::child(case),
+            None => enumcheck::deep::child(depth, &op),
+        };
         std::process::exit(if ok { 0 } else { 3 });
     }
     if args[0] == "--enum" {
